@@ -190,6 +190,15 @@ class Resp:
     def __init__(self, status, body, headers):
         self.status, self.body, self.headers = status, body, dict(headers)
 
+    # (the attribute response hooks such as RFC 9207's IssuerParameter read and write, as on a werkzeug response)
+    @property
+    def location(self):
+        return self.headers.get("Location")
+
+    @location.setter
+    def location(self, v):
+        self.headers["Location"] = v
+
 
 class MemServer(AuthorizationServer):
     def __init__(self, store, scopes_supported=None):
